@@ -85,6 +85,16 @@ func errFromOS(err error) error {
 	}
 }
 
+// errFromMissingParent is errFromOS for operations creating a resource: when
+// the parent collection doesn't exist, WebDAV wants "409 Conflict".
+func errFromMissingParent(err error) error {
+	err = errFromOS(err)
+	if internal.IsNotFound(err) {
+		return NewHTTPError(http.StatusConflict, err)
+	}
+	return err
+}
+
 func (fs LocalFileSystem) Stat(ctx context.Context, name string) (*FileInfo, error) {
 	p, err := fs.localPath(name)
 	if err != nil {
@@ -156,6 +166,9 @@ func (fs LocalFileSystem) Create(ctx context.Context, name string, body io.ReadC
 	}
 	fi, _ = fs.Stat(ctx, name)
 	created = fi == nil
+	if fi != nil && fi.IsDir {
+		return nil, false, NewHTTPError(http.StatusMethodNotAllowed, fmt.Errorf("webdav: resource is a collection"))
+	}
 
 	if err := checkConditionalMatches(fi, opts.IfMatch, opts.IfNoneMatch); err != nil {
 		return nil, false, err
@@ -163,7 +176,7 @@ func (fs LocalFileSystem) Create(ctx context.Context, name string, body io.ReadC
 
 	wc, err := os.Create(p)
 	if err != nil {
-		return nil, false, errFromOS(err)
+		return nil, false, errFromMissingParent(err)
 	}
 	defer wc.Close()
 
